@@ -138,8 +138,9 @@ def render(prog):
 class Gen(object):
     """Random structured programs inside the Interp.tla fragment."""
 
-    def __init__(self, rng, profile):
+    def __init__(self, rng, profile, focus=None):
         self.r = rng
+        self.focus = focus or {}
         self.p = profile          # set of families: 'ctl', 'err', 'data', 'trap', 'stray'
         self.lines = []
         self.n = 0
@@ -195,34 +196,53 @@ class Gen(object):
             self.budget -= 1
             if self.budget < 0:
                 return
-            r = self.r.random()
-            if r < 0.30 or depth >= 3:
+            fam = self.pick_family(depth)
+            if fam == 'simple':
                 k = self.r.randint(1, 3)
                 self.line([self.simple() for _ in range(k)])
-            elif r < 0.50:
+            elif fam == 'for':
                 self.for_block(depth, targets)
-            elif r < 0.58:
+            elif fam == 'while':
                 self.while_block(depth, targets)
-            elif r < 0.70:
+            elif fam == 'if':
                 self.if_stmt(depth, targets)
-            elif r < 0.78:
+            elif fam == 'gosub':
                 self.line([{'op': 'GOSUB', 'n': ('sub', self.r.randint(0, 2))}] + ([self.simple()] if self.r.random() < 0.5 else []))
-            elif r < 0.84:
+            elif fam == 'on':
                 k = self.r.randint(1, 3)
                 self.line([{'op': 'ON', 'e': self.r.choice([self.atom(), C(self.r.randint(0, 4))]),
                             't': self.r.choice(['GOTO', 'GOSUB']),
                             'ns': [('sub', self.r.randint(0, 2)) for _ in range(k)], 'fix_on': True}])
-            elif r < 0.90 and 'err' in self.p:
+            elif fam == 'err':
                 self.err_stmt()
-            elif r < 0.95 and 'data' in self.p:
+            elif fam == 'data':
                 self.data_stmt()
-            elif 'trap' in self.p:
+            elif fam == 'trap':
                 self.trap_stmt()
-            elif 'stray' in self.p and self.r.random() < 0.3:
+            elif fam == 'stray':
                 self.line([self.r.choice([{'op': 'NEXT', 'vs': []}, {'op': 'WEND'}, {'op': 'RETURN', 'n': 0},
                                           {'op': 'NEXT', 'vs': ['I']}, {'op': 'GOTO', 'n': 64000}])])
-            else:
-                self.line([self.simple()])
+
+    WEIGHTS = {'simple': 30, 'for': 20, 'while': 8, 'if': 12, 'gosub': 8, 'on': 6, 'err': 0, 'data': 0, 'trap': 0, 'stray': 0}
+
+    def pick_family(self, depth):
+        if depth >= 3:
+            return 'simple'
+        w = dict(self.WEIGHTS)
+        for f in ('err', 'data', 'trap'):
+            if f in self.p:
+                w[f] = 8
+        if 'stray' in self.p:
+            w['stray'] = 2
+        for f, x in self.focus.items():
+            w[f] = x
+        tot = sum(w.values())
+        x = self.r.random() * tot
+        for f, v in w.items():
+            x -= v
+            if x < 0:
+                return f
+        return 'simple'
 
     def for_block(self, depth, targets):
         cv = self.r.choice(['I', 'J', 'K%', 'L%'])
@@ -505,6 +525,11 @@ class Runner(object):
         elif r[0] == 'err':
             end['k'] = 'error'
             end['code'] = r[1]
+            if r[1] == 21:
+                # "Unprintable error": the number is not in the message; ERR still holds it
+                q = sess.ev('ERR')
+                if q[0] == 'ok' and isinstance(q[1], int):
+                    end['code'] = q[1]
             end['line'] = r[3] if r[3] is not None else -2
         else:
             m = re.search(br'Break(?: in (\d+))?', delta)
